@@ -265,7 +265,7 @@ func TestC14NameRaw(t *testing.T) {
 				fail("Encode(Decode(table)): record %d (%d/%d/%#x/%d) was not in the input", i, r.Platform, r.Encoding, r.Language, r.NameID)
 			}
 			if !bytes.Equal(w, r.Data) {
-				fail("Encode(Decode(table)): record %d (%d/%d/%#x/%d) holds %s, the input had %s", i, r.Platform, r.Encoding, r.Language, r.NameID, shortBytes(r.Data), shortBytes(w))
+				fail("Encode(Decode(table)): record %d (%d/%d/%#x/%d) holds %s, the input had %s (%s)", i, r.Platform, r.Encoding, r.Language, r.NameID, shortBytes(r.Data), shortBytes(w), diffBytes(r.Data, w))
 			}
 			seenKey[kk] = true
 		}
